@@ -42,6 +42,7 @@ type Op struct {
 	N   int    `json:"n,omitempty"`  // inext: steps; atomic: keys per batch
 	M   int    `json:"m,omitempty"`  // atomic: batches; mode in Mode
 	Mo  int    `json:"mo,omitempty"` // atomic: 0 overwrite, 1 put/delete alternation, 2 range-delete + puts
+	R   int    `json:"r,omitempty"`  // atomic: repetitions of the phase (set by the run that found a visibility violation, so that replays of this real-thread race try harder)
 	Key []byte `json:"key"`          // key | range start | iterator prefix | atomic key base
 	Val []byte `json:"val"`          // value | range end | iterator start
 }
@@ -223,13 +224,6 @@ func shrink(pl any) []any {
 	var out []any
 	for _, ops := range simcore.ShrinkSlice(p.Ops) {
 		out = append(out, &Plan{Ops: ops})
-	}
-	for i, op := range p.Ops {
-		if op.K == "atomic" && op.M > 2 {
-			q := &Plan{Ops: append([]Op{}, p.Ops...)}
-			q.Ops[i].M = op.M / 2
-			out = append(out, q)
-		}
 	}
 	return out
 }
@@ -608,6 +602,9 @@ func run(t *testing.T, pl any) *simcore.Result {
 		feat[op.K] = true
 		if v := w.step(op); v != nil {
 			v.Msg = fmt.Sprintf("step %d/%d %s: %s", i, len(p.Ops), opString(op), v.Msg)
+			if v.Oracle == "batch-atomicity" && p.Ops[i].R == 0 {
+				p.Ops[i].R = 25 // the replay file asks for up to 25 repetitions of this phase
+			}
 			return res.Fail(v)
 		}
 	}
@@ -1023,8 +1020,10 @@ func (w *world) step(op Op) *simcore.Violation {
 		}
 	case "atomic":
 		for _, b := range w.bs {
-			if v := w.atomic(b, op); v != nil {
-				return v
+			for r := 0; r < max(1, min(op.R, 100)); r++ {
+				if v := w.atomic(b, op); v != nil {
+					return v
+				}
 			}
 		}
 	}
